@@ -1164,6 +1164,10 @@ func (envs *Manager) handleDeviceEvent(evt event.DeviceEvent) {
 							Error("cannot stop run after END_OF_STREAM event")
 					}
 				}()
+			} else {
+				// there is no run to stop, but the task is in ERROR all the same: its role must know,
+				// so that a critical task takes the environment to ERROR
+				go t.GetParent().UpdateState(sm.ERROR)
 			}
 		}
 
